@@ -28,7 +28,11 @@ class Lemma:
     `lean` names a theorem of /verif/lemmas/*.lean that proves the same statement (checked by `lean`)."""
 
     def __init__(self, name, vars, body, patterns=None, induct=None, uses=(), auto=False, lean=None, depth=None,
-                 cases=None, inst=(), use_inst=()):
+                 cases=None, inst=(), use_inst=(), unfold_only=None, no_auto=False, ground_only=(), inline_defs=()):
+        self.inline_defs = list(inline_defs)   # non-recursive spec functions expanded in place in this lemma's proof
+        self.ground_only = set(ground_only)   # used lemmas that enter the proof only through the stated ground instances
+        self.unfold_only = unfold_only   # whitelist of spec functions whose definitions the proof unfolds
+        self.no_auto = no_auto           # the proof sees only the lemmas named in `uses`
         self.use_inst = list(use_inst)  # [(lemma name, [terms for its vars])]: ground instances of used lemmas
         self.inst = list(inst)   # explicit instances of the induction hypothesis: lists of terms for `vars`
         self.name, self.vars, self.body, self.patterns = name, list(vars), body, patterns
@@ -66,14 +70,21 @@ class Lemma:
             for terms in self.inst:
                 sub2 = list(zip(primed, terms))
                 hyps.append(z3.substitute(z3.Implies(guard, bodyp), *sub2))
-        for (ln, terms) in self.use_inst:
-            assert ln in self.uses, "use_inst of a lemma that is not in uses"
-            L = LEMMAS[ln]
-            hyps.append(z3.substitute(L.body, *list(zip(L.vars, terms))))
+        def ground(pairs):
+            out = []
+            for (ln, terms) in pairs:
+                assert ln in self.uses, "use_inst of a lemma that is not in uses"
+                L = LEMMAS[ln]
+                out.append(z3.substitute(L.body, *list(zip(L.vars, terms))))
+            return out
+        hyps += ground(self.use_inst)
         if self.cases:
+            # a case is a condition, or (condition, [ground lemma instances used in that case only])
+            conds = [c[0] if isinstance(c, tuple) else c for c in self.cases]
+            extra = [ground(c[1]) if isinstance(c, tuple) else [] for c in self.cases]
             ante = self.body.arg(0) if z3.is_implies(self.body) else z3.BoolVal(True)
-            return [("%s/case%d" % (self.name, i), hyps + [c], self.body) for i, c in enumerate(self.cases)] + \
-                   [("%s/cases_exhaustive" % self.name, [ante], z3.Or(*self.cases))]
+            return [("%s/case%d" % (self.name, i), hyps + extra[i] + [c], self.body) for i, c in enumerate(conds)] + \
+                   [("%s/cases_exhaustive" % self.name, [ante], z3.Or(*conds))]
         return [(self.name + "/proof", hyps, self.body)]
 
 
@@ -94,7 +105,8 @@ class Contract:
     def __init__(self, key, params, returns=None, requires=(), ensures=(), raises=None, loops=None,
                  modifies=(), inline=(), witness=(), ghost=(), trusted=False, pure=False, note="",
                  raise_ensures=None, decreases=None, body=None, unroll=None, assume_valid=True,
-                 replay=None, props=(), lemmas=(), locals=None, hints=(), domains=None, gen=None, ghost_scope=None, no_runtime=False, bounded_only=False, depth=None, reveal=(), frame_only=False, param_values=None, modifies_ghost=(), unfold_only=None):
+                 replay=None, props=(), lemmas=(), locals=None, hints=(), domains=None, gen=None, ghost_scope=None, no_runtime=False, bounded_only=False, depth=None, reveal=(), frame_only=False, param_values=None, modifies_ghost=(), unfold_only=None, becomes=None):
+        self.becomes = dict(becomes or {})   # typestate: parameter -> class shape (key@state) the object has when the function returns normally
         self.unfold_only = None if unfold_only is None else list(unfold_only)   # whitelist of spec functions whose definitions are instantiated
         self.modifies_ghost = list(modifies_ghost)   # ghost variables the function may change (havoced at call sites)
         self.param_values = dict(param_values or {})   # parameters with a fixed (python-level) value, e.g. cls of a classmethod
@@ -164,9 +176,10 @@ def axiom(name, vars, body, patterns=None, note="", auto=False):
     return l
 
 
-def klass(key, fields, **kw):
+def klass(key, fields, state=None, **kw):
+    """`state` declares a second shape of the same class (typestate, e.g. "closed"): TObj(key + "@" + state)"""
     c = ClassDecl(key, fields, **kw)
-    CLASSES[key] = c
+    CLASSES[key + ("@" + state if state else "")] = c
     return c
 
 
